@@ -135,5 +135,60 @@ def replay(rp):
     return a != b, lines
 
 
+def order_section(rep, rng, tier, prop, fn, cases, name='request-order'):
+    """The answer of a case does not depend on which OTHER cases the process answered before it (each case builds its own
+    objects; what survives is module-level / class-level state).  The cases are answered in one fresh interpreter in the given
+    order, in another in reverse order, in a third in a shuffled order; a case whose answers differ is answered ALONE in a fresh
+    interpreter, and the order that disagrees with that is shrunk to one predecessor when one suffices."""
+    sec = rep.section(name)
+    n = len(cases)
+    sec['rule'] = ('%d cases answered by %s in one fresh interpreter in the given order, in another in reverse, in a third shuffled; '
+                   'every case must get the same answer in all three (a case that does not is answered alone, and the failing '
+                   'order is shrunk to a single predecessor when one suffices; oracle on the code alone)' % (n, fn))
+    perm = list(range(n))
+    rng.shuffle(perm)
+    orders = [list(range(n)), list(range(n - 1, -1, -1)), perm]
+    with ThreadPoolExecutor(max_workers=3) as ex:
+        res = list(ex.map(lambda o: run_under(fn, [cases[i] for i in o], {}, False, None), orders))
+    if any(r[0] is None for r in res):
+        rep.broken.append('request-order helper did not run: ' + ' / '.join(r[1][:150] for r in res if r[0] is None))
+        return
+    ans = []
+    for o, (got, _) in zip(orders, res):
+        a = [None] * n
+        for pos, i in enumerate(o):
+            a[i] = got[pos]
+        ans.append(a)
+    for i in range(n):
+        sec['cases'] += 1
+        if ans[0][i] == ans[1][i] == ans[2][i]:
+            sec['distinct_nontrivial'] += 1
+            continue
+        alone = run_under(fn, [cases[i]], {}, False, None)[0][0]
+        k = next(k for k in range(3) if ans[k][i] != alone)
+        before = orders[k][:orders[k].index(i)]
+        pred = None
+        for j in reversed(before):
+            got = run_under(fn, [cases[j], cases[i]], {}, False, None)[0]
+            if got and got[1] != alone:
+                pred = [j]
+                break
+        pred = pred if pred is not None else before
+        a, b = alone, ans[k][i]
+        d = next((x for x in range(min(len(a), len(b))) if a[x] != b[x]), min(len(a), len(b)))
+        rep.add_failure('history:answer-depends-on-earlier-requests',
+                        '%s: a request answers differently after %d other request(s) in the same process than alone: alone …%r…, '
+                        'after them …%r…' % (prop, len(pred), a[max(0, d - 60):d + 80], b[max(0, d - 60):d + 80]),
+                        {'section': name, 'fn': fn, 'case': cases[i], 'before': [cases[j] for j in pred]})
+        break
+
+
+def replay_order(rp):
+    alone = run_under(rp['fn'], [rp['case']], {}, False, None)[0][0]
+    after = run_under(rp['fn'], list(rp['before']) + [rp['case']], {}, False, None)[0][-1]
+    return alone != after, ['alone in a fresh interpreter       : %r' % alone[:1500],
+                            'after %d other request(s), same process: %r' % (len(rp['before']), after[:1500])]
+
+
 if __name__ == '__main__':
     _helper_main(sys.argv[1:])
